@@ -92,7 +92,7 @@ def run(ctx):
     if perid and (perid["max_held"] > perid["mc"] or perid["too_many"] < 1):
         fails.append(("per-request-id-cap", "%d intermediate chunks for one request id with MaxChunkCount %d: up to %d chunks were held, %d 'too many chunks' errors" % (
             perid["sent"], perid["mc"], perid["max_held"], perid["too_many"]), {"case": perid}))
-    if wedge and wedge["first_delivered"] and not wedge["second_delivered"] and wedge["rcv_locked"]:
+    if wedge and not (wedge["first_delivered"] and wedge["second_delivered"] and not wedge["rcv_locked"]):
         fails.append(("rcvlocker-wedge",
                       "an unsolicited OpenSecureChannelResponse whose request id matches a pending request left the dispatcher waiting on rcvLocker: the next response was not delivered until the lock was released by hand", {"case": wedge}))
     corr_ok, mism, idx = True, [], []
